@@ -82,14 +82,25 @@ JudgeFilter(r, i) ==
     IN IF r.err = "" /\ r.got = want THEN {}
        ELSE {[k |-> IF dev \in EnabledDevs THEN "known" ELSE "viol", i |-> i, t |-> "filter", dev |-> dev, want |-> want]}
 
+\* free-busy-query (extension, reported as note): r = [c, transp, status, got (<<start, end>> or <<-1,-1>>), err]
+JudgeFb(r, i) ==
+    LET want == BusyPeriod(r.c, r.transp, r.status) IN
+    IF r.err = "" /\ <<r.got[1], r.got[2]>> = want THEN {}
+    ELSE {[k |-> "ext", i |-> i, t |-> "fb",
+           dev |-> "freebusy:" \o Row(r.c) \o ":" \o r.transp \o ":" \o r.status \o ":" \o
+                   (IF r.err # "" THEN "error" ELSE IF want = NoPeriod THEN "extra" ELSE IF r.got[1] = NoVal THEN "missing" ELSE "wrong-period"),
+           want |-> want # NoPeriod]}
+
 VARIABLES which, idx, done
 vars == <<which, idx, done>>
 Init == /\ \/ which = "time" /\ idx \in DOMAIN File.time
            \/ which = "filter" /\ idx \in DOMAIN File.filters
+           \/ which = "fb" /\ idx \in DOMAIN File.fb
         /\ done = FALSE /\ TLCSet(1, {})
 Next == /\ ~done
-        /\ TLCSet(1, TLCGet(1) \cup (IF which = "time" THEN JudgeTime(File.time[idx], idx)
-                                                    ELSE JudgeFilter(File.filters[idx], idx)))
+        /\ TLCSet(1, TLCGet(1) \cup (CASE which = "time" -> JudgeTime(File.time[idx], idx)
+                                         [] which = "filter" -> JudgeFilter(File.filters[idx], idx)
+                                         [] OTHER -> JudgeFb(File.fb[idx], idx)))
         /\ done' = TRUE /\ UNCHANGED <<which, idx>>
 Spec == Init /\ [][Next]_vars
 Done == JsonSerialize(IOEnv.RESULT_FILE, [results |-> TLCGet(1)])
